@@ -339,10 +339,12 @@ def write_replay(pid, seed, n, payload):
 
 
 def write_evidence(pid, tier, seed, wall_s, coverage, assumptions, violations, level="proof"):
-    os.makedirs(os.path.join(ROOT, "evidence"), exist_ok=True)
+    # runs against a scratch worktree (VERIF_REPO: mutants, seeded changes) must not overwrite the evidence of /repo
+    evdir = "evidence" if REPO == "/repo" else os.path.join(".work", "evidence-scratch")
+    os.makedirs(os.path.join(ROOT, evdir), exist_ok=True)
     ev = {"property_id": pid, "tier": tier, "seed": int(seed), "level": level, "coverage": coverage,
           "assumptions": assumptions, "wall_s": round(wall_s, 2), "violations": violations}
-    p = os.path.join(ROOT, "evidence", pid + ".json")
+    p = os.path.join(ROOT, evdir, pid + ".json")
     with open(p, "w") as fh:
         json.dump(ev, fh, indent=1, sort_keys=False)
     return p
